@@ -48,6 +48,7 @@ type pOutFault struct {
 	Match   string `json:"match"`
 	Times   int    `json:"times,omitempty"`
 	DelayUs int    `json:"delay_us,omitempty"`
+	Panic   bool   `json:"panic,omitempty"` // the Write call panics instead (a broken io.Writer)
 }
 
 type pOpts struct {
